@@ -528,6 +528,55 @@ impl Property for C13 {
                 }
             }
         }
+        // "last instruction crosses": the instruction that reaches the exit address is the one that takes the total over
+        // 2,000,000 (the window is one charge wide; the sizes are found by measuring candidates with the reference loop)
+        if index % every == EXAMPLES.len() as u64 + 2 || (tier == Tier::Thorough && index % 500 == 78) {
+            let lead = rng.range(0, 6);
+            let style = *rng.pick(&[0u8, 2, 3, 4, 5]);
+            let build = |second: u16, pad: u64| -> Scn {
+                let mut blocks = Vec::new();
+                for i in 0..lead {
+                    blocks.push(Block::Arith((i * 29) as u8));
+                }
+                blocks.push(Block::Delay(60_000));
+                blocks.push(Block::Delay(second));
+                for _ in 0..pad {
+                    blocks.push(Block::Raw(vec![0xf0, 0x00])); // MOV.B #0,R0H: 2 states
+                }
+                let guest = GuestSpec { blocks, handlers: vec![], code_dram: false, stack_dram: false, data_dram: false, vec_top: 0, sub_delay: 1, init_ccr: None, stack_off: 0, exit_style: style };
+                Scn { guest: Some(guest), elf: None, args: String::new(), clocks: clocks.clone(), step_cap: 1_000_000, print_msgs: false, print_opcode: false, start_at: None }
+            };
+            // measure once, then solve for the second loop's length and the padding
+            let probe = build(40_000, 0);
+            if let Ok(g) = probe.guest.as_ref().unwrap().assemble() {
+                if let Ok(t) = reference_run(&probe, &Some(g), &[]) {
+                    let last = t.rows.last().map(|r| r.1 as u64).unwrap_or(18);
+                    let before_last = t.fin_state - last;
+                    // every loop iteration costs 18 states, every pad instruction 6
+                    let want_lo = SYNC_INTERVAL.saturating_sub(last); // total before the last instruction must be in [want_lo, 2M)
+                    if before_last < want_lo {
+                        let extra_loops = (want_lo - before_last) / 18;
+                        for pad in 0..6u64 {
+                            for adj in 0..3u64 {
+                                let second = 40_000 + extra_loops + adj;
+                                if second > 65_000 {
+                                    continue;
+                                }
+                                let cand = build(second as u16, pad);
+                                if let Ok(g2) = cand.guest.as_ref().unwrap().assemble() {
+                                    if let Ok(t2) = reference_run(&cand, &Some(g2), &[]) {
+                                        let l2 = t2.rows.last().map(|r| r.1 as u64).unwrap_or(0);
+                                        if matches!(t2.outcome, Outcome::Ok) && t2.fin_state >= SYNC_INTERVAL && t2.fin_state - l2 < SYNC_INTERVAL {
+                                            return cand;
+                                        }
+                                    }
+                                }
+                            }
+                        }
+                    }
+                }
+            }
+        }
         let mut blocks = Vec::new();
         let mut handlers = Vec::new();
         let with_timer = rng.chance(1, 2);
@@ -612,7 +661,7 @@ impl Property for C13 {
             sub_delay: rng.range(1, 20) as u16,
             init_ccr: Some(if masked { 0x80 | rng.u8() } else { rng.u8() & 0x7f }),
             stack_off: if rng.chance(1, 2) { 0 } else { 4 * rng.below(64) as u16 },
-            exit_style: if rng.chance(1, 2) { 0 } else { rng.below(8) as u8 },
+            exit_style: if rng.chance(1, 2) { 0 } else { rng.below(9) as u8 },
         };
         let est = super::c10::estimate_iters(&guest);
         let print_msgs = rng.chance(1, 8);
@@ -711,6 +760,11 @@ impl Property for C13 {
                 if sum > 0 && sum % SYNC_INTERVAL == 0 {
                     bump(stats, "probe.threshold_hit_exactly");
                 }
+            }
+        }
+        if let Some(l) = reft.rows.last() {
+            if matches!(reft.outcome, Outcome::Ok) && reft.fin_state / SYNC_INTERVAL > (reft.fin_state - l.1 as u64) / SYNC_INTERVAL {
+                bump(stats, "probe.threshold_passed_by_the_instruction_that_reaches_the_exit");
             }
         }
         let near = f0.fin.state_sum % SYNC_INTERVAL;
